@@ -5,7 +5,7 @@ ID="$1"; HERE="$(cd "$(dirname "$0")/.." && pwd)"; SCRATCH="${SCRATCH:-/var/tmp/
 [ -d "$SCRATCH/pybrops" ] || { mkdir -p "$SCRATCH" && git -C /repo archive HEAD | tar -x -C "$SCRATCH"; }   # scratch export of /repo HEAD (outside /repo and /verif; remove it when done)
 PID="${2:-$(python3 -c "import json;print(json.load(open('$HERE/seeded/$ID/meta.json'))['property'])")}"
 ( cd "$SCRATCH" && patch -p1 -s < "$HERE/seeded/$ID/patch.diff" ) || exit 9
-mkdir -p /var/tmp/ev
+mkdir -p /var/tmp/ev /var/tmp/thorough
 PYBROPS_REPO="$SCRATCH" PYVC_EVIDENCE_DIR=/var/tmp/ev "$HERE/check" "$PID" > /var/tmp/thorough/seedtest-$ID-$PID.log 2>&1; RC=$?
 ( cd "$SCRATCH" && patch -R -p1 -s < "$HERE/seeded/$ID/patch.diff" )
 L=/var/tmp/thorough/seedtest-$ID-$PID.log
